@@ -168,6 +168,31 @@ CHECKS = {
             "the SubRip/WebVTT readers never set) is a modelling device checked by the byte comparison; coloured "
             "runs are outside the WebVTT representability predicate; in the matrix and in the styled-source suite texts are plain Latin words (arbitrary "
             "Unicode text only in the SubRip/WebVTT model comparison)."),
+    "C06": (True,
+            "Theorems about a Gallina model of the teletext reader from the delivered PES payloads on (page buffer, character decoder, "
+            "page and row parsing; Model/Ttx.v, Model/TtxRow.v), with every table regenerated from the code on each run (tools/genttx -> "
+            "Gen/TtxTables.v: G0/G2 sets, national subsets and their 13 positions, teletextCharsets, astikit's Hamming-8/4 and parity "
+            "tables, bits.Reverse8): the Hamming table equals the standard's nearest-code-word decoder on every byte (round trip on the 16 "
+            "nibbles, all single errors corrected, all double errors rejected), bit reversal is involutive, parity/cell tables characterised "
+            "on all 256 bytes (a byte failing parity contributes no text), the national option changes exactly the 13 positions for every "
+            "entry of teletextCharsets; unit, packet, header and row codecs round-trip for ALL values; and the stream-level statement: for "
+            "EVERY ground-truth page schedule, EVERY multiplexing in the decidable class mux_ok (stuffing / non-subtitle / wrong-framing / "
+            "short units, uncorrectable addresses and corrected single-bit Hamming errors, rows and pages of other magazines in parallel "
+            "mode, X/26 X/27 X/30 X/31, inert or default-designation X/28 and M/29, time-filling headers, terminators, erase pages) and ANY "
+            "grouping of the units into PES packets, the reader returns exactly cues_of(schedule) - one cue per non-empty instance, start = "
+            "time of the PES that began it, end = that of the next instance or the last time, relative to the first, rows in row order "
+            "decoded in the page's national set, runs split at colour/size codes - with the page given or auto-detected by the subtitle "
+            "flag; the reader never panics on any delivered list of arbitrary bytes. Tie: the extracted model is value-compared with the "
+            "library's own page-buffer loop (hook VerifTeletextFeed) on generated schedules x multiplexing choices and on hostile payloads "
+            "(no class-only domain); the extracted mux_ok/cues_of are evaluated on the generated schedules and compared with what the "
+            "implementation returns; ground-truth oracles through the hook and through the astits muxer + ReadFromTeletext (page/PID "
+            "given or auto-detected, distractor PIDs, PAT/PMT repetition).",
+            "Rocq proof over a Gallina model of the teletext page buffer/decoder with tables regenerated from the code + extracted-model differential correspondence + schedule oracle through the real transport-stream path",
+            "the third-party demultiplexer (astits) is not modelled: 'astits delivers, for the selected PID, the PES payloads with their "
+            "PTS/PCR times and the PMT descriptors as the muxer wrote them' is a named contract, exercised only by the TS-level oracle "
+            "suites; PES-level noise (no time, other identifier, empty payload, truncated last unit) and PID detection are harness-only; "
+            "non-default X/28-M/29 designations and parity-failing cells inside rows are modelled and value-compared but outside the "
+            "stream theorem's class (the reasons are in notes/C06.md); every theorem of Properties/C06.v is closed under the global context."),
     "C20": (True,
             "Theorems: (i) frame property - in an interleaving semantics where steps only read the shared store, every thread ends, under "
             "ANY schedule, in the state it reaches alone; (ii) instance - the write-effect summary regenerated on every run from the go/ssa "
@@ -205,7 +230,7 @@ PENDING = "check not built yet in this session (work in progress; see DESIGN.md 
 def main():
     props = [json.loads(l) for l in open(os.path.join(VERIF, "properties.jsonl"))]
     hook_commits = subprocess.check_output(
-        ["git", "-C", "/repo", "log", "--format=%h", "--", "verif_hooks.go"], text=True).split()
+        ["git", "-C", "/repo", "log", "--format=%h", "--", "verif_hooks*.go"], text=True).split()
     checks, na = [], []
     for p in props:
         pid = p["id"]
